@@ -39,16 +39,55 @@
 //	                        the run ends with one fault-free request per peer.
 //	pipelined               "serialized": no request is written to a stream
 //	                        before the previous exchange on it completed.
-//	failed-stream-open      "reset rather than reused after any failed exchange".
-//	request-wedged          liveness after the faults stopped.
+//	failed-stream-open      "reset rather than reused after any failed exchange":
+//	                        whatever made the exchange fail - a reset, an end of
+//	                        stream, a time-out, a cancellation, an expired caller
+//	                        deadline, or a reply frame that is well delimited but
+//	                        cannot be decoded / announces an absurd length.
+//	late-reply-accepted     "a request whose reply did not arrive in time fails
+//	                        instead of consuming a later reply", for every
+//	                        caller: also one whose own context carries a deadline
+//	                        far beyond any read time-out. "In time" is the
+//	                        sender's own read time-out, which the harness does
+//	                        not mirror; it judges only replies that were
+//	                        delivered more than c11InTime (10 minutes, a harness
+//	                        choice: generous by more than an order of magnitude
+//	                        for one exchange with one peer) after the request was
+//	                        written to that stream. Such a reply must not come
+//	                        back as a success.
+//	request-wedged          liveness after the faults stopped ("a request whose
+//	                        reply did not arrive in time fails": it does not wait
+//	                        for ever either, whatever deadline its caller has).
 //
 // Disconnect notifications come in two shapes: with the peer's streams reset
 // (the connection died) and "stale" (the connection was re-established before
 // the node processed the notification, so its streams are alive).
+//
+// Remote misbehaviour (fault levels 1 and 2), always in reaction to a request
+// the remote received: instead of (or before) its honest reply it writes a
+// junk frame - well delimited but not a DHT message (invalid wire data, a
+// field that runs past the end of the frame, a string field that is not
+// UTF-8) or a length prefix no message can have - or it silently forgets the
+// request. Junk may be followed by the honest reply on the same stream; a
+// sender that kept the stream after the failed exchange would hand that reply
+// to the next request.
+//
+// Callers: a request has no deadline, or (drawn per request) a deadline of
+// 90 s, 20 min or 6 h of virtual time from the moment it is issued; time steps
+// go up to 45 min, so remotes stall for seconds, minutes or most of an hour
+// before they answer.
+//
+// Excluded from the generated space: frames the remote sends unprompted (a
+// well-formed unprompted message is indistinguishable from a reply, no sender
+// could pair it; unprompted junk is the same situation as junk that arrives
+// early), a junk frame of length zero (it IS a valid, empty DHT message), and
+// virtual time crossing the deadline of a request that is parked opening a
+// stream (determinism, same reason as for cancellations, see below).
 package scen
 
 import (
 	"context"
+	"encoding/binary"
 	"errors"
 	"fmt"
 	"sort"
@@ -61,6 +100,7 @@ import (
 	"github.com/libp2p/go-libp2p/core/event"
 	"github.com/libp2p/go-libp2p/core/network"
 	"github.com/libp2p/go-libp2p/core/peer"
+	"google.golang.org/protobuf/proto"
 
 	"verif/sim"
 	"verif/simhost"
@@ -72,7 +112,9 @@ func init() {
 		Real: []string{"internal/net messageSenderImpl + peerMessageSender (reached through IpfsDHT.MessageSender())", "internal.CtxMutex", "subscriber_notifee disconnect path (real event bus)", "msgio framing"},
 		Stub: []string{"host.Host / NewStream (simhost)", "streams (simhost.Fabric byte pipes, scheduler-owned delivery)", "remote peers (scripted: echo the whole request - type, key, record)"},
 		Faults: []string{"fault_reply_late", "fault_stream_reset", "fault_cancel", "fault_open_fail", "fault_disconnect", "fault_remote_eof", "fault_split_chunk", "fault_write_error", "time_advance", "probe_timeout_hit", "probe_stream_reused", "probe_retry_stream", "probe_late_reply_after_timeout",
-			"fault_disconnect_stale", "probe_disconnect_inflight", "probe_disconnect_queued", "probe_same_key_concurrent", "probe_epilogue_after_disconnect"},
+			"fault_disconnect_stale", "probe_disconnect_inflight", "probe_disconnect_queued", "probe_same_key_concurrent", "probe_epilogue_after_disconnect",
+			"fault_junk_frame", "fault_request_forgotten", "fault_long_stall", "probe_junk_then_reply", "probe_junk_made_sender_reset", "probe_decode_error_returned",
+			"probe_deadline_request", "probe_stall_under_far_deadline", "probe_deadline_expired"},
 	})
 }
 
@@ -93,7 +135,14 @@ type c11Req struct {
 	cancelled bool
 	startAt   time.Duration
 	doneAt    time.Duration
+	// deadline: 0, or how far after the start of the request the deadline of
+	// the caller's context lies
+	deadline time.Duration
 }
+
+// c11InTime: a reply delivered later than this after its request was written
+// is late by any standard (harness choice, see the header comment).
+const c11InTime = 10 * time.Minute
 
 type c11Pair struct {
 	a, b     *simhost.Stream
@@ -102,6 +151,52 @@ type c11Pair struct {
 	pending  []*pb.Message // requests received by the remote, not yet answered
 	received map[int]bool  // ids of the requests the remote received
 	answered map[int]bool  // ids of the requests the remote received and wrote an answer to
+
+	// what the remote wrote, frame by frame: the offset at which the frame ends
+	// in the remote's output, and whether the frame completes an exchange (an
+	// honest reply or a junk frame in the place of one; not the honest reply
+	// that follows a junk frame for the same request)
+	frameEnd      []int
+	frameComplete []bool
+	wroteTotal    int
+	junked        map[int]bool          // requests the remote answered with junk
+	junkEnd       int                   // end offset of the first junk frame (0: none)
+	junkSeen      bool                  // probe bookkeeping
+	replyEnd      map[int]int           // end offset of the honest reply to request id
+	wroteAt       map[int]time.Duration // when request id was first seen written on this stream (observed at a quiescent point: never before the write)
+	deliveredAt   map[int]time.Duration // when the honest reply to request id was delivered in full to the sender
+}
+
+// remoteWrite writes one frame (or junk) on the remote's end of the stream.
+func (p *c11Pair) remoteWrite(data []byte, completes bool) bool {
+	if _, err := p.b.Write(data); err != nil {
+		return false
+	}
+	p.wroteTotal += len(data)
+	p.frameEnd = append(p.frameEnd, p.wroteTotal)
+	p.frameComplete = append(p.frameComplete, completes)
+	return true
+}
+
+// c11Junk returns what the remote writes instead of a reply: kinds 0-2 are
+// well-delimited frames whose body is not a DHT message, kind 3 is a length
+// prefix no message can have (1 GiB) followed by a few bytes.
+func c11Junk(kind int) []byte {
+	var body []byte
+	switch kind {
+	case 0: // invalid wire data
+		body = []byte{0xff, 0xff, 0xff}
+	case 1: // field 2 (key) announces 127 bytes, the frame ends after 2
+		body = []byte{0x08, 0x00, 0x12, 0x7f, 'a', 'b'}
+	case 2: // record (field 3) whose timeReceived (field 5, a string) is not UTF-8
+		body = []byte{0x1a, 0x04, 0x2a, 0x02, 0xff, 0xfe}
+	default:
+		return append(binary.AppendUvarint(nil, 1<<30), 'j', 'u', 'n', 'k')
+	}
+	if _, err := decodeMsg(body); err == nil {
+		panic("c11: junk body decodes as a DHT message")
+	}
+	return appendFrame(nil, body)
 }
 
 // c11Payload is the record value that identifies request id; the key of a
@@ -140,9 +235,12 @@ func runC11(s *sim.Sim) {
 	// 0: every request has a key of its own; n>0: keys come from a pool of n
 	// keys, so requests agree in their key (and often in peer and type too)
 	keyPool := s.Draw("key-pool", 4)
+	// callers with a deadline of their own (drawn per request) in two runs of three
+	deadlines := s.Chance("deadlines", 2, 3)
 	var pairs []*c11Pair
 	fab.OnOpen = func(a, b *simhost.Stream) {
-		pairs = append(pairs, &c11Pair{a: a, b: b, received: map[int]bool{}, answered: map[int]bool{}})
+		pairs = append(pairs, &c11Pair{a: a, b: b, received: map[int]bool{}, answered: map[int]bool{}, junked: map[int]bool{},
+			replyEnd: map[int]int{}, wroteAt: map[int]time.Duration{}, deliveredAt: map[int]time.Duration{}})
 	}
 	h.OpenStream = fab.StreamOpener(func(peer.ID) *simhost.Host { return nil }, nil)
 
@@ -182,6 +280,15 @@ func runC11(s *sim.Sim) {
 		} else {
 			r.key = []byte(fmt.Sprintf("shared-key-%d", s.Draw("key", keyPool)))
 		}
+		if deadlines && !r.epilogue {
+			// The deadlines lie off the millisecond grid on which every other
+			// timer of the run fires, and no two requests share one: a deadline
+			// never expires in the same instant as a read time-out or another
+			// deadline (HARNESS.md, pitfall 4).
+			if dl := []time.Duration{0, 90 * time.Second, 20 * time.Minute, 6 * time.Hour}[s.Draw("deadline", 4)]; dl > 0 {
+				r.deadline = dl + time.Duration(i+1)*10*time.Microsecond
+			}
+		}
 		r.ctx, r.cancel = context.WithCancel(sim.WithTag(context.Background(), fmt.Sprintf("r%04d", i)))
 		reqs[i] = r
 	}
@@ -195,13 +302,21 @@ func runC11(s *sim.Sim) {
 				}
 				s.Park("client", fmt.Sprintf("c%d:r%04d", c, r.id), nil, r)
 				r.started, r.startAt = true, s.Now()
+				if r.deadline > 0 {
+					s.Count("probe_deadline_request")
+				}
 				m := c11Msg(r.typ, r.key, r.id)
+				ctx, release := r.ctx, func() {}
+				if r.deadline > 0 {
+					ctx, release = context.WithTimeout(r.ctx, r.deadline)
+				}
 				if r.isMsg {
-					r.err = snd.SendMessage(r.ctx, r.peer.ID, m)
+					r.err = snd.SendMessage(ctx, r.peer.ID, m)
 				} else {
-					r.resp, r.err = snd.SendRequest(r.ctx, r.peer.ID, m)
+					r.resp, r.err = snd.SendRequest(ctx, r.peer.ID, m)
 				}
 				r.done, r.doneAt = true, s.Now()
+				release()
 			}
 			return nil, nil
 		})
@@ -273,20 +388,32 @@ func runC11(s *sim.Sim) {
 			var ids []int
 			for _, f := range wp.Frames {
 				if m, err := decodeMsg(f); err == nil {
-					ids = append(ids, c11ID(m))
+					id := c11ID(m)
+					ids = append(ids, id)
 					if m.GetType() != pb.Message_ADD_PROVIDER {
 						nReq++
 					}
+					if _, seen := p.wroteAt[id]; !seen {
+						p.wroteAt[id] = s.Now()
+					}
 				}
 			}
-			var rp frameParser
-			rp.Feed(p.b.WroteBytes())
-			complete, off := 0, 0
-			for _, f := range rp.Frames {
-				off += len(appendFrame(nil, f))
-				if off <= p.a.Delivered {
+			complete := 0
+			for i, end := range p.frameEnd {
+				if p.frameComplete[i] && end <= p.a.Delivered {
 					complete++
 				}
+			}
+			for id, end := range p.replyEnd {
+				if _, seen := p.deliveredAt[id]; !seen && end <= p.a.Delivered {
+					// deliveries are scheduler steps and no step both delivers bytes and
+					// advances the clock: this is the instant of the delivery
+					p.deliveredAt[id] = s.Now()
+				}
+			}
+			if p.junkEnd > 0 && !p.junkSeen && p.junkEnd <= p.a.Delivered && p.a.ResetBy == "local" {
+				p.junkSeen = true
+				s.Count("probe_junk_made_sender_reset")
 			}
 			if nReq > complete+1 {
 				s.Violate("pipelined", "stream %s carries %d requests but only %d replies were delivered: a request was written before the previous exchange completed", p.a.Name(), nReq, complete)
@@ -318,10 +445,44 @@ func runC11(s *sim.Sim) {
 				if !answered {
 					s.Violate("reply-without-exchange", "request %d (%v %q) to %s returned a reply, but the remote peer never answered that request (it reached the remote: %v)", r.id, r.typ, r.key, r.peer.Name, received)
 				}
+				// (vi) ... and answered it in time: of the remote's replies to this
+				// request that had been delivered when the request returned, at least
+				// one was delivered within c11InTime of the moment the request was
+				// written to that stream. (The write is observed at the first
+				// quiescent point after it, so the measured delay is never longer
+				// than the real one.)
+				inTime, late := false, time.Duration(0)
+				for _, p := range pairs {
+					if p.a.Remote != r.peer.ID {
+						continue
+					}
+					at, delivered := p.deliveredAt[r.id]
+					w, written := p.wroteAt[r.id]
+					if !delivered || !written || at > r.doneAt {
+						continue
+					}
+					if at-w > c11InTime {
+						late = at - w
+					} else {
+						inTime = true
+					}
+				}
+				if late > 0 && !inTime {
+					s.Violate("late-reply-accepted", "request %d (%v %q, caller deadline %v) to %s returned as a success the reply that was delivered %v after the request had been written: a request whose reply did not arrive in time has to fail", r.id, r.typ, r.key, r.deadline, r.peer.Name, late.Round(time.Second))
+				}
 			}
-			if r.done && errors.Is(r.err, dht.ErrReadTimeout) && !everTimedOut[r.id] {
-				everTimedOut[r.id] = true
-				s.Count("probe_timeout_hit")
+			if r.done && !everTimedOut[r.id] {
+				switch {
+				case errors.Is(r.err, dht.ErrReadTimeout):
+					everTimedOut[r.id] = true
+					s.Count("probe_timeout_hit")
+				case errors.Is(r.err, context.DeadlineExceeded):
+					everTimedOut[r.id] = true
+					s.Count("probe_deadline_expired")
+				case errors.Is(r.err, proto.Error):
+					everTimedOut[r.id] = true
+					s.Count("probe_decode_error_returned")
+				}
 			}
 		}
 		if !sameKeySeen {
@@ -430,14 +591,31 @@ func runC11(s *sim.Sim) {
 				acts = append(acts, sim.Action{ID: fmt.Sprintf("answer:%s:r%04d", p.b.Name(), id), Do: func() {
 					p.pending = p.pending[1:]
 					// the remote's reply is an echo of the whole request
-					if _, err := p.b.Write(encodeFrame(c11Msg(req.GetType(), req.GetKey(), id))); err == nil {
+					if p.remoteWrite(encodeFrame(c11Msg(req.GetType(), req.GetKey(), id)), !p.junked[id]) {
 						p.answered[id] = true
+						if _, dup := p.replyEnd[id]; !dup {
+							p.replyEnd[id] = p.wroteTotal
+						}
+						if p.junked[id] {
+							s.Count("probe_junk_then_reply")
+						}
 					}
 					if !draining && s.Chance("remote-eof", fp, 10) {
 						s.Count("fault_remote_eof")
 						_ = p.b.CloseWrite()
 					}
 				}})
+			}
+		}
+		// A request is never cancelled while it is parked opening a stream, and
+		// the clock never crosses its deadline there: from that place it can
+		// reach CtxMutex.Lock with a context that is done AND a free lock, a
+		// two-way-ready select the Go runtime resolves at random (both outcomes
+		// are legal, but the run would not replay).
+		opening := map[string]bool{}
+		for _, p := range s.ParkedKind("open") {
+			if i := strings.LastIndex(p.ID, "@"); i >= 0 {
+				opening[strings.SplitN(p.ID[i+1:], "#", 2)[0]] = true
 			}
 		}
 		if !draining && faultLevel > 0 {
@@ -449,15 +627,32 @@ func runC11(s *sim.Sim) {
 						p.b.SimReset()
 					}})
 				}
-			}
-			// A request is never cancelled while it is parked opening a stream:
-			// from there it can reach CtxMutex.Lock with a cancelled context AND a
-			// free lock, a two-way-ready select the Go runtime resolves at random
-			// (both outcomes are legal, but the run would not replay).
-			opening := map[string]bool{}
-			for _, p := range s.ParkedKind("open") {
-				if i := strings.LastIndex(p.ID, "@"); i >= 0 {
-					opening[strings.SplitN(p.ID[i+1:], "#", 2)[0]] = true
+				if len(p.pending) > 0 && !p.b.IsReset() {
+					req := p.pending[0]
+					id := c11ID(req)
+					// the remote answers the oldest request it has with junk; the
+					// request then either stays on its list (the honest reply may
+					// still follow, on the same stream) or is forgotten
+					if !p.junked[id] {
+						acts = append(acts, sim.Action{ID: fmt.Sprintf("zjunk:%s:r%04d", p.b.Name(), id), Do: func() {
+							kind := s.Draw("junk-kind", 4)
+							if s.Chance("junk-only", 1, 2) {
+								p.pending = p.pending[1:]
+							}
+							if p.remoteWrite(c11Junk(kind), true) {
+								s.Count("fault_junk_frame")
+								p.junked[id] = true
+								if p.junkEnd == 0 {
+									p.junkEnd = p.wroteTotal
+								}
+							}
+						}})
+					}
+					// the remote forgets the request without a word
+					acts = append(acts, sim.Action{ID: fmt.Sprintf("zforget:%s:r%04d", p.b.Name(), id), Do: func() {
+						s.Count("fault_request_forgotten")
+						p.pending = p.pending[1:]
+					}})
 				}
 			}
 			for _, r := range reqs {
@@ -512,10 +707,46 @@ func runC11(s *sim.Sim) {
 				}
 			}
 		}
-		// time: advance across the read time-out now and then
+		// time: advance across the read time-out now and then, and sometimes by
+		// minutes or most of an hour (a remote that stalls, a caller that waits)
 		acts = append(acts, sim.Action{ID: "ztime", Do: func() {
-			d := []time.Duration{500 * time.Millisecond, 3 * time.Second, 9999 * time.Millisecond, 10001 * time.Millisecond, 25 * time.Second}[s.Draw("dt", 5)]
+			d := []time.Duration{500 * time.Millisecond, 3 * time.Second, 9999 * time.Millisecond, 10001 * time.Millisecond, 25 * time.Second,
+				2 * time.Minute, 11 * time.Minute, 45 * time.Minute}[s.Draw("dt", 8)]
+			for _, r := range reqs {
+				if r.started && !r.done && r.deadline > 0 && opening[fmt.Sprintf("r%04d", r.id)] {
+					if left := r.startAt + r.deadline - s.Now() - time.Millisecond; d > left {
+						d = left
+					}
+				}
+			}
+			if d <= 0 {
+				return
+			}
 			s.Count("time_advance")
+			if d >= time.Minute {
+				for _, p := range pairs {
+					if (len(p.pending) > 0 || p.a.NextChunkLen() > 0) && !p.a.IsReset() {
+						s.Count("fault_long_stall")
+						break
+					}
+				}
+			}
+			// a request under a deadline that outlasts this step is waiting for a
+			// reply the remote has not written yet
+			farStall := false
+			for _, p := range pairs {
+				if p.a.IsReset() {
+					continue
+				}
+				for _, m := range p.pending {
+					if id := c11ID(m); id >= 0 && id < len(reqs) && !reqs[id].done && reqs[id].deadline > 0 && reqs[id].startAt+reqs[id].deadline > s.Now()+d && d >= time.Minute {
+						farStall = true
+					}
+				}
+			}
+			if farStall {
+				s.Count("probe_stall_under_far_deadline")
+			}
 			if d > 9*time.Second {
 				for _, p := range pairs {
 					if len(p.pending) > 0 {
@@ -548,7 +779,9 @@ func runC11(s *sim.Sim) {
 		}
 		if len(progress) == 0 {
 			idle++
-			if idle > 40 {
+			// nothing left to schedule and still a request has not returned: wait
+			// for longer than c11InTime before calling it wedged
+			if time.Duration(idle)*5*time.Second > c11InTime+time.Minute {
 				break
 			}
 			s.Sleep(5 * time.Second)
@@ -571,7 +804,7 @@ func runC11(s *sim.Sim) {
 			}
 		}
 		if len(stuck) > 0 {
-			s.Violate("request-wedged", "requests %v never returned although every byte was delivered, every request answered and 200 s of virtual time passed", stuck)
+			s.Violate("request-wedged", "requests %v never returned although every byte was delivered, every request answered or forgotten by the remote, and more than %v of virtual time passed with nothing left to schedule", stuck, c11InTime)
 		}
 	}
 	if s.Steps > s.MaxSteps {
